@@ -17,6 +17,7 @@ RULE = ("fault sequences on valid calls: NaN/+-inf/huge at arbitrary "
         "injected non-finite value or a degenerate configuration; distinct = "
         "(family, fault kinds+placement, constraint kind, outcome)")
 RULE += ("  Also: user functions returning int / float32 / list values, unhashable callable callbacks, callbacks returning truthy values; success is also judged against the TRUE violation at res.x (undefined -> never successful).")
+RULE += (" Initial radii of 1e60..1e150.")
 ASSUMPTIONS = [
     "debug=False (debug assertions are the documented reporting channel)",
     "finite time = logical budget: loop iterations inside cobyqa code "
